@@ -282,22 +282,40 @@ def rule_R1(ctx, repo, flow):
     fit = nf.methods.get("fit")
     if fit is None:
         raise AnalysisError("anchor missing: NaiveForecaster.fit")
-    g = flow.cfg(fit)
+    fit_family = [fit]
+    seen_f = {id(fit)}
+    work = [fit]
+    while work:
+        f_ = work.pop()
+        for x in astq.walk_no_nested(f_):
+            if astq.is_self_attr(x) and isinstance(x.ctx, ast.Load):
+                hit_ = repo.lookup_method(nf, x.attr)
+                if hit_ and hit_[0] is nf and id(hit_[1]) not in seen_f and x.attr not in ("fit", "predict", "update"):
+                    seen_f.add(id(hit_[1]))
+                    fit_family.append(hit_[1])
+                    work.append(hit_[1])
+    fit_names = {f_.name for f_ in fit_family}
     for attr, validators in (("window_length", ("check_window_length",)), ("sp", ("check_sp",))):
-        reads_ = [n for n in g.nodes if any(astq.is_self_attr(x, attr=attr + "_") and isinstance(x.ctx, ast.Store) for e in n.exprs for x in ast.walk(e))]
+        stores_ = []
+        for f_ in fit_family:
+            if f_.name.startswith("_predict") or f_.name in ("_get_last_window",):
+                continue
+            for x in astq.walk_no_nested(f_):
+                if isinstance(x, ast.Assign) and any(astq.is_self_attr(t, attr=attr + "_") for t in x.targets):
+                    stores_.append(x)
         bad = []
-        for n in reads_:
-            st = n.stmt
-            v = st.value if isinstance(st, ast.Assign) else None
+        for st in stores_:
+            v = st.value
             ok = isinstance(v, ast.Call) and astq.call_name(v) in validators and v.args and astq.is_self_attr(v.args[0], attr=attr)
             derived = isinstance(v, ast.Call) and astq.call_name(v) == "len"
             const = isinstance(v, ast.Constant)
             from_validated = astq.is_self_attr(v) and v.attr.endswith("_") if v is not None else False
             if not (ok or derived or const or from_validated):
                 bad.append(st.lineno)
-        ctx.check(bool(reads_) and not bad, "R1", "NaiveForecaster.fit:%s_" % attr,
+        ctx.check(bool(stores_) and not bad, "R1", "NaiveForecaster.fit:%s_" % attr,
                   "fitted %s_ comes from %s(self.%s), a constant or len(y)" % (attr, validators[0], attr),
-                  "%s_ is assigned from an unvalidated value at line %s" % (attr, bad), ctx.loc(nf.module, fit))
+                  "%s_ is assigned from an unvalidated value at line %s" % (attr, bad) if stores_ else
+                  "no store of %s_ found in fit or the own methods it reaches (%s)" % (attr, sorted(fit_names)), ctx.loc(nf.module, fit))
     # ForecastingHorizon.__init__
     fhc = repo.cls(FH + ":ForecastingHorizon")
     init = fhc.methods.get("__init__")
@@ -912,6 +930,9 @@ def _dominated_by_membership(repo, flow, mod, cls, fn, ifnode, subj, lits):
             for subj2, lits2, nodes2, tail2 in string_chains(fitfn):
                 if subj2 == subj and tail2 and block_always_raises(tail2) and set(lits2) >= set(lits):
                     return True
+            tab = _table_dispatch(fitfn, subj)
+            if tab is not None and set(tab) >= set(lits):
+                return True
             gg = flow.cfg(fitfn)
             for node in gg.nodes:
                 st = node.stmt
@@ -920,6 +941,38 @@ def _dominated_by_membership(repo, flow, mod, cls, fn, ifnode, subj, lits):
                     if isinstance(t, ast.Compare) and len(t.ops) == 1 and isinstance(t.ops[0], ast.NotIn) and dotted(t.left) == subj:
                         return True
     return False
+
+
+def _table_dispatch(fn, subj):
+    """Literal names of a `for name, handler in <literal table>: if subj == name: ...; break` dispatch whose `else` always raises."""
+    for n in astq.walk_no_nested(fn):
+        if not (isinstance(n, ast.For) and n.orelse and block_always_raises(n.orelse)):
+            continue
+        it = n.iter
+        if isinstance(it, ast.Name):
+            vals = astq.assigned_values(fn, it.id)
+            it = vals[0] if len(vals) == 1 else it
+        if not isinstance(it, (ast.Tuple, ast.List)):
+            continue
+        names = []
+        for e in it.elts:
+            first = e.elts[0] if isinstance(e, (ast.Tuple, ast.List)) and e.elts else e
+            if isinstance(first, ast.Constant) and isinstance(first.value, str):
+                names.append(first.value)
+            else:
+                names = None
+                break
+        if not names:
+            continue
+        var = n.target.elts[0] if isinstance(n.target, (ast.Tuple, ast.List)) and n.target.elts else n.target
+        if not isinstance(var, ast.Name):
+            continue
+        for c in ast.walk(n):
+            if isinstance(c, ast.Compare) and len(c.ops) == 1 and isinstance(c.ops[0], ast.Eq):
+                sides = {dotted(c.left), dotted(c.comparators[0])}
+                if subj in sides and var.id in sides:
+                    return names
+    return None
 
 
 def _func_rejects_unknown(fn):
